@@ -346,15 +346,19 @@ def rule_r3(chk, p, t):
             var = lp.target.id
             cons = f"{step.qualname}:dispatch:{unparse(lp.iter)}:{call_name(c)}"
             arg = unparse(c.args[0]) if c.args else None
-            ifs = []
-            cur = c
-            while cur in pm and pm[cur] is not lp:
-                cur = pm[cur]
-                if isinstance(cur, ast.If):
-                    ifs.append(cur)
-            foreign = sorted({n.id for i in ifs for n in ast.walk(i.test) if isinstance(n, ast.Name) and n.id != var and n.id not in ("self",) and any(isinstance(o, ast.For) and o is not lp and isinstance(o.target, ast.Name) and o.target.id == n.id for o in ast.walk(step.node))})
-            rt = [i for i in ifs if any(isinstance(n, ast.Attribute) and n.attr == "realtime" for n in ast.walk(i.test))]
-            own = rt and all(isinstance(n.value, ast.Name) and n.value.id == var for i in rt for n in ast.walk(i.test) if isinstance(n, ast.Attribute) and n.attr == "realtime")
+            # the tests that decide whether this call is reached within one iteration (nested ifs, guard clauses with
+            # `continue` alike): condition atoms of the loop body that dominate the call
+            cfg_s = cfg_of(step)
+            nd_s = cfg_s.node_of(c)
+            tests = []
+            if nd_s is not None:
+                for cid, _lab in cfg_s.control_conditions(nd_s.id):
+                    cn = cfg_s.nodes[cid]
+                    if cn.kind == "cond" and any(x is cn.ast for x in ast.walk(lp)):
+                        tests.append(cn.ast)
+            foreign = sorted({n.id for tst in tests for n in ast.walk(tst) if isinstance(n, ast.Name) and n.id != var and n.id not in ("self",) and any(isinstance(o, ast.For) and o is not lp and isinstance(o.target, ast.Name) and o.target.id == n.id for o in ast.walk(step.node))})
+            rt = [tst for tst in tests if any(isinstance(n, ast.Attribute) and n.attr == "realtime" for n in ast.walk(tst))]
+            own = rt and all(isinstance(n.value, ast.Name) and n.value.id == var for tst in rt for n in ast.walk(tst) if isinstance(n, ast.Attribute) and n.attr == "realtime")
             if arg != var or foreign or not own:
                 r.violation(cons, f"dispatch:{arg}:{foreign}:{bool(own)}", f"in the loop over `{unparse(lp.iter)}` the agent `{var}` is dispatched as `{unparse(c)[:60]}` under a test of {foreign or 'another object'}: whether an agent is propagated or imported must depend on that agent's own `realtime` flag (a leaked variable of an earlier loop decides for all of them)", step.loc(c))
             else:
